@@ -336,6 +336,18 @@ def launcherLines (ns : List Node) : List String :=
 
 def launchModes : List String := ["cuda", "hip", "opencl", "metal", "dpcpp"]
 
+/-- `withLauncher::extractLoopAsKernel`: for an `@inner` loop whose count is not a compile-time constant but
+    mentions `_occa_tiled_` (the in-block loop of a `@tile(…, @inner)`), the `__launch_bounds__` value is read
+    off the *printed* count at its first digit 1-9; without such a digit `OCCA_ERROR("@tile size is
+    undefined!")` throws and the launcher backends fail (Serial/OpenMP do not run this code). -/
+def launchBoundsThrows (ns : List Node) : Bool :=
+  ns.any fun n => match n with
+    | .loop l =>
+      let txt := print (countExpr l)
+      l.attr == .inner && !isConst (countExpr l) && (txt.splitOn "_occa_tiled_").length > 1
+        && !txt.any (fun c => '1' ≤ c && c ≤ '9')
+    | _ => false
+
 def rejectedLine : String :=
   "ok" ++ String.join (["serial", "openmp", "cuda", "hip", "opencl", "metal", "dpcpp"].map fun m => " @@ " ++ m ++ " ERR")
 
@@ -344,6 +356,7 @@ def kernelLine (ns : List Node) : String :=
   "ok @@ serial " ++ joinLines (hostLines false ns false)
     ++ " @@ openmp " ++ joinLines (hostLines true ns false)
     ++ String.join (launchModes.map fun m =>
+         if launchBoundsThrows ns then " @@ " ++ m ++ " ERR" else
          " @@ " ++ m ++ " " ++ joinLines (deviceLines m ns)
          ++ " @@ " ++ m ++ ".launcher " ++ joinLines (launcherLines ns))
 
